@@ -36,7 +36,7 @@ PROPS['C03'] = {
     'mismatch_is_failing_input': True,
     'modules': ['MinterProofs.Props.C04'],
     'theorems': ['Minter.C03_reject_fee_only', 'Minter.C04_nonce_effect', 'Minter.prologue_ne_zero'],
-    'campaigns': [camp('malformed', 16, 200), camp('ledger', 8, 100)],
+    'campaigns': [camp('malformed', 16, 200), camp('ledger', 8, 100), camp('pricecoin', 8, 60)],   # pricecoin: the failed-tx fee is converted from a custom table coin
     'mismatch_counts': True,
     'assumptions': [MODEL_NOTE],
 }
@@ -303,7 +303,7 @@ PROPS['C27'] = {
                  'Minter.Rules.route_tie_pool', 'Minter.Rules.calcCommissionQ_spec', 'Minter.Rules.moves_rewards', 'Minter.Rules.fee_to_pool',
                  'Minter.Rules.ticker_fee_burned', 'Minter.Rules.fee_not_to_zero', 'Minter.Rules.payCommission_rewards', 'Minter.Rules.success_rewards',
                  'Minter.Rules.tickerBurn_rewards', 'Minter.Rules.ticker_burn_amount'],
-    'campaigns': [camp('checktx', 12, 100), camp('orders', 12, 100), camp('ledger', 8, 100)],
+    'campaigns': [camp('checktx', 12, 100), camp('orders', 12, 100), camp('ledger', 8, 100), camp('pricecoin', 8, 60)],   # pricecoin: table in a custom coin, gas prices up to 50
     'modes': [_rules('c27')],
     'mismatch_counts': True,
     'assumptions': [TX_MODEL_NOTE, 'the failed-tx fee has no Go function of its own (inline in RunTx): Lean definition only, covered by the tx.fail_fee tags in the campaigns',
